@@ -366,6 +366,99 @@ def inline_call(cj, cb, hj):
     return True
 
 
+def prune_known_variant_switches(cj, adts):
+    """after splicing, a helper's `match mode { Mode::A => .., Mode::B => .. }` on a parameter that the caller passes as a
+    CONSTANT variant (`helper(x, Mode::B)`) has one feasible arm only.  The switch becomes a goto to that arm, so that the
+    rules see what the caller does, not what the helper could do for other callers.  Only for: a switch on
+    `discriminant(local)`, the local (through whole-local moves / copies, each assigned exactly once) built by ONE aggregate of
+    a field-less variant of an enum of the analysed crates whose switch values are the variant indices."""
+    blocks = cj["blocks"]
+    defs = {}
+    borrowed = set()
+    for bi, bl in enumerate(blocks):
+        for st in bl["s"]:
+            if st["k"] == "assign":
+                if not st["pl"].get("p"):
+                    defs.setdefault(st["pl"]["l"], []).append(st["rv"])
+                else:
+                    defs.setdefault(st["pl"]["l"], []).append(None)
+                if st["rv"]["k"] in ("ref", "rawptr") and st["rv"].get("mut", True):
+                    borrowed.add(st["rv"]["pl"]["l"])
+        t = bl["t"]
+        if t["k"] == "call" and t.get("dest") is not None:
+            defs.setdefault(t["dest"]["l"], []).append(None)
+    argc = cj.get("argc", 0)
+
+    def variant_of(l, depth=0):
+        if depth > 8 or l in borrowed or 1 <= l <= argc:
+            return None
+        ds = defs.get(l, [])
+        if len(ds) != 1 or ds[0] is None:
+            return None
+        rv = ds[0]
+        if rv["k"] == "use" and rv["op"].get("k") in ("copy", "move") and not rv["op"]["pl"].get("p"):
+            return variant_of(rv["op"]["pl"]["l"], depth + 1)
+        if rv["k"] == "agg" and rv.get("ak") == "adt" and not rv.get("ops") and rv.get("variant") and rv.get("name") in adts:
+            names = [v["name"] for v in adts[rv["name"]].get("variants", [])]
+            if len(names) > 1 and rv["variant"] in names:
+                return (rv["name"], names.index(rv["variant"]), len(names))
+        return None
+
+    n = 0
+    for bl in blocks:
+        t = bl["t"]
+        if t["k"] != "switch" or t["d"].get("k") not in ("copy", "move") or t["d"]["pl"].get("p"):
+            continue
+        dl = t["d"]["pl"]["l"]
+        dd = [st for st in bl["s"] if st["k"] == "assign" and not st["pl"].get("p") and st["pl"]["l"] == dl]
+        if len(dd) != 1 or dd[0]["rv"]["k"] != "discr" or dd[0]["rv"]["pl"].get("p") or len(defs.get(dl, [])) != 1:
+            continue
+        kv = variant_of(dd[0]["rv"]["pl"]["l"])
+        if kv is None:
+            continue
+        (_adt, idx, nvar) = kv
+        vals = [str(v) for (v, _tb) in t["vals"]]
+        if not all(v.isdigit() and int(v) < nvar for v in vals):
+            continue  # explicit discriminants: the mapping to variant indices is not known
+        target = None
+        for (v, tb) in t["vals"]:
+            if str(v) == str(idx):
+                target = tb
+        if target is None:
+            target = t["else"]
+        bl["t"] = {"k": "goto", "t": target, "ln": t.get("ln"), "pruned": "variant %d of %s" % (idx, _adt)}
+        n += 1
+    if n:
+        # the arms nobody can enter any more are emptied, so that rules that scan all blocks do not see them
+        def succs(t):
+            out = []
+            k = t["k"]
+            if k == "goto":
+                out.append(t["t"])
+            elif k == "switch":
+                out += [tb for (_v, tb) in t["vals"]] + [t["else"]]
+            else:
+                if isinstance(t.get("t"), int):
+                    out.append(t["t"])
+                for key in ("unwind", "u", "cleanup"):
+                    if isinstance(t.get(key), int):
+                        out.append(t[key])
+            return out
+
+        seen, st = set(), [0]
+        while st:
+            b = st.pop()
+            if b in seen or not (0 <= b < len(blocks)):
+                continue
+            seen.add(b)
+            st += succs(blocks[b]["t"])
+        for bi, bl in enumerate(blocks):
+            if bi not in seen and not bl.get("c"):
+                bl["s"] = []
+                bl["t"] = {"k": "unreachable", "pruned": True}
+    return n
+
+
 def _callees(body):
     return {(t.get("callee") or "") for _b, t in body.calls()}
 
@@ -415,6 +508,7 @@ def inline_into(facts, roots, want, max_depth=MAX_DEPTH):
                 if inline_call(cj, b, facts.bodies[c].j):
                     done.append(c)
         if cj is not None and done:
+            prune_known_variant_switches(cj, getattr(facts, "adts", {}))
             f2.bodies[rid] = core.Body(cj, body.crate)
             report[rid] = done
     return f2, report
